@@ -344,6 +344,10 @@ class PluginEnv:
          "Documentation": {"Message": ..., "MessageArgSources": ["SRCWord6", ...]}}
         (installed as `pel.peltool.src.registry.pels`; optional members may be missing)
     The shipped `ocallouts` table is always part of the environment (read from the live module).
+    Modules that exist but cannot be imported (any package): ('import_raises', msg) = executing the module raises RuntimeError(msg),
+    ('import_error', msg) = it raises ImportError(msg) (not a ModuleNotFoundError), ('import_mnf',) = it imports a module that is not
+    installed (ModuleNotFoundError).  For the stateless model all of them are `absent` except a user-data `import_raises`
+    (error note + dump); the module-table model of C19 tells them apart (`IMPORT_FAULT`).
     """
 
     def __init__(self, allow=True, ud=None, src=None, callout=None, comp_ids=None, registry=None):
@@ -364,15 +368,21 @@ class PluginEnv:
             pass
 
         def udb(b):
+            if b[0] in ('import_error', 'import_mnf'):
+                return 'absent'      # the import raises an ImportError: "module not found" for parseCustom
             return {'echo': 'echo', 'none': 'none'}.get(b[0]) or ('raises ' + tt(b[1]) if b[0] in ('raises', 'raises_import') else
                                                                   'importraises ' + tt(b[1]) if b[0] == 'import_raises' else 'text ' + tt(b[1]))
 
         def srcb(b):
             # ('raises_import',): the CALL raises ImportError - for the model simply a parser that raises
+            if b[0] in IMPORT_FAULT:
+                return 'absent'      # the import does not yield a module: no details
             return b[0] if b[0] in ('echo', 'raises') else 'raises' if b[0] == 'raises_import' else 'text ' + tt(b[1])
 
         def cob(b):
             # ('table_raise', procs, bad): raises for the procedure `bad`, which the model sees as "no description"
+            if b[0] in IMPORT_FAULT:
+                return 'absent'      # the import does not yield a module: no description
             return 'raises' if b[0] == 'raises' else 'table ' + tlist(b[1].items(), lambda kv: tt(kv[0]) + ' ' + tlist(kv[1], tt))
         def topt(v, f=tt):
             return '0' if v is None else '1 ' + f(v)
@@ -465,7 +475,20 @@ def reset_caches():
         pass
 
 
+# fixture behaviours that make the IMPORT of the module fail, and what the module-table model calls the failure
+IMPORT_FAULT = {'import_raises': 'other', 'import_error': 'importerror', 'import_mnf': 'notfound'}
+
+
 def fixture_source(pkg, beh):
+    if beh[0] == 'import_raises' and pkg != 'udparsers':
+        # the module exists, but executing it raises something that is not an ImportError
+        return 'raise RuntimeError(%r)\n' % (beh[1] if len(beh) > 1 else 'load failure')
+    if beh[0] == 'import_error':
+        # ... raises an ImportError that is not a ModuleNotFoundError
+        return 'raise ImportError(%r)\n' % (beh[1] if len(beh) > 1 else 'cannot import name frobnicate')
+    if beh[0] == 'import_mnf':
+        # ... imports something that is not installed: ModuleNotFoundError out of an existing module
+        return 'import frobnicate_module_that_is_not_installed\n'
     if pkg == 'udparsers':
         if beh[0] == 'import_raises':
             # the module exists, but executing it fails with something that is not an ImportError (e.g. a missing data file)
